@@ -250,6 +250,13 @@ func init() {
 			{Dir: "hdkeychain", Name: "ZZ_C15_independent", Reach: []string{"end", "same-key"}, Tweak: hdStubs()},
 		},
 	})
+	reg(&PropSpec{
+		ID: "C06",
+		Harnesses: []HarnessSpec{
+			{Dir: "root", Name: "ZZ_C06_roundtrip", Reach: []string{"end"}, Tweak: hdStubs()},
+			{Dir: "root", Name: "ZZ_C06_strict", Reach: []string{"parsed", "accepted", "rejected"}, Tweak: hdStubs()},
+		},
+	})
 	meta("C01", []string{
 		"SHA-256 and RIPEMD-160 are uninterpreted functions (same symbol inside the code under test and in the harness reference)",
 		"the CashAddr reference encoder in harness/root/common.go is a correct transcription of the specification",
